@@ -21,6 +21,14 @@ add("C07", "exploration",
     "Exhaustive small-scope enumeration of the real Chunk.split/concatenate/merge/Rechunker code against a reference model: every sorted interval array of <=4 rows on an 8-point grid x every split time x flags, every law-abiding partition, every gap pattern for get_splits, sub/superrun annotations. The finite space is visited completely, nothing is sampled.",
     "small-scope hypothesis (<=4-5 rows, 8 grid points); the reference model in vlib/checks/c07.py is trusted",
     "bounded exhaustive enumeration of inputs (small-scope checking of a sequential library) vs reference model", "smallscope")
+add("C08", "exploration",
+    "Exhaustive enumeration of dependency shapes (1 dep, 2 same-kind, 2 kinds, 2 same-kind + 1 other, 3 kinds) x every sorted row set of <=2-3 rows per kind x every independent law-abiding chunking of each dependency x strict/lenient save policy x end-of-run mismatch variants, driving the real Plugin.iter of a recorder plugin and checking every recorded do_compute call (identical interval for all inputs, row-aligned merge of same-kind inputs, adjacency, each row exactly once in order, error instead of silent drop).",
+    "small-scope hypothesis (<=3 rows per kind, 5-point grid); dependencies start together; 4 dependencies not enumerated",
+    "bounded exhaustive enumeration of inputs on the implementation with a call-recording oracle", "graphs")
+add("C09", "exploration",
+    "Exhaustive enumeration of every disjoint row set (<=3-4 rows, rows longer than the window included) x every law-abiding chunking x every window (l,r) in {0..3}^2 x {per-row, per-group} window-local computations x {single, multi-output} OverlapWindowPlugins through Context.get_iter; oracle: one computation over the whole run; contiguity; a strict consumer of both outputs of the multi-output variant checks mutual alignment.",
+    "small-scope hypothesis; window-local computations by construction; single-thread processor (the plugin logic is processor independent)",
+    "bounded exhaustive enumeration of inputs on the implementation vs whole-run reference", "graphs")
 add("C17", "exploration",
     "Exhaustive enumeration of all configurations of <=4 things x <=3 containers on a 7-point grid (both encodings, windows -2..3) against direct quadratic evaluations of the docstring definitions, under the documented preconditions; unsorted inputs must be rejected; all unsorted (time,channel) arrays of <=4 rows for stable sorting.",
     "small-scope hypothesis; zero-length intervals and the 'randomly for larger arrays' clause are outside",
